@@ -131,22 +131,49 @@ func analyse(cs *Case) *forestInfo {
 	return f
 }
 
-// window membership of a root, from offsets only (the window is [now−back, now+fwd] and span
-// times are now+offset, so "now" cancels): +1 inside, −1 entirely outside, 0 don't-care.
-func rootMembership(root *Span, cs *Case) int {
-	lo, hi := -cs.WindowBackMs*nsPerMs, cs.WindowFwdMs*nsPerMs
-	if root.StartOff >= lo && root.EndOff() <= hi {
-		return +1
-	}
-	if root.EndOff() < lo || root.StartOff > hi {
-		return -1
-	}
-	return 0
-}
-
 // ---- talking to the worker ---------------------------------------------------------------------
 
+// rec collects the observations of one attempt at a case; only the final attempt's are reported.
+type rec struct {
+	classes []string
+	known   []string
+	counts  map[string]int64
+}
+
+func (r *rec) Class(c string)  { r.classes = append(r.classes, c) }
+func (r *rec) Known(id string) { r.known = append(r.known, id) }
+func (r *rec) Count(k string, n int64) {
+	if r.counts == nil {
+		r.counts = map[string]int64{}
+	}
+	r.counts[k] += n
+}
+func (r *rec) applyTo(o *pt.Obs) {
+	for _, c := range r.classes {
+		o.Class(c)
+	}
+	seen := map[string]bool{}
+	for _, k := range r.known {
+		if !seen[k] {
+			o.Known(k)
+			seen[k] = true
+		}
+	}
+	for k, n := range r.counts {
+		o.Count(k, n)
+	}
+}
+
 type violation struct{ msg string }
+
+// timeoutErr: a worker command did not answer within callTimeout. view says whether the command
+// was one of the trace views (only those can be a hang in the sense of the property).
+type timeoutErr struct {
+	view bool
+	msg  string
+}
+
+func (e *timeoutErr) Error() string { return e.msg }
 
 func (v *violation) Error() string { return v.msg }
 
@@ -160,19 +187,12 @@ func callOp(c *sut.Client, req *sut.Req, out interface{}, what string) error {
 		return &violation{fmt.Sprintf("server process died during %s: %s", what, pt.CrashDetail(c))}
 	}
 	if errors.Is(err, sut.ErrTimeout) {
-		// Only a view that does not answer is a hang in the sense of the property; and only if the
-		// machine itself is responsive (a fresh worker starts and answers promptly).
-		if req.Op != "c12http" && req.Op != "c12red" && req.Op != "c12storedep" {
-			return pt.Inconclusivef("%s did not answer within %v (not a view)", what, callTimeout)
-		}
-		if d, perr := loadProbe(); perr != nil || d > 3*time.Second {
-			return pt.Inconclusivef("%s did not answer within %v, but the machine is overloaded (fresh worker round trip %v, %v)", what, callTimeout, d, perr)
-		}
 		se := c.Stderr()
 		if len(se) > 6000 {
 			se = se[:6000]
 		}
-		return &violation{fmt.Sprintf("hang: %s did not answer within %v; goroutines:\n%s", what, callTimeout, se)}
+		view := req.Op == "c12http" || req.Op == "c12red" || req.Op == "c12storedep" || req.Op == "c12percentiles"
+		return &timeoutErr{view: view, msg: fmt.Sprintf("%s did not answer within %v; goroutines:\n%s", what, callTimeout, se)}
 	}
 	var oe *sut.OpError
 	if errors.As(err, &oe) && strings.HasPrefix(oe.Msg, "PANIC:") {
@@ -215,6 +235,82 @@ func clip(b []byte) string {
 	return string(b)
 }
 
+// ---- event times -----------------------------------------------------------------------------------
+
+// runEnv carries the facts of one run that the expectations depend on: the clock readings, the
+// view window and the stored event time of every span. Which instant the server stores as the
+// event time of a span (its arrival at the pinned commit, its start time with fix
+// C16-carried-event-time) is C16's subject, not this property's; the views select spans by that
+// time, so it is read back from index "traces" and window membership is computed from it.
+type runEnv struct {
+	now, now2 int64         // worker clock (epoch ms) before the first and after the last ingest/flush
+	ws, we    int64         // view window, epoch ms
+	et        map[int]int64 // vid -> stored event time, epoch ms
+}
+
+func (e *runEnv) inWin(s *Span) bool {
+	t := e.et[s.Vid]
+	return t >= e.ws && t <= e.we
+}
+
+func (e *runEnv) startNs(s *Span) int64 { return e.now*nsPerMs + s.StartOff }
+func (e *runEnv) endNs(s *Span) int64   { return e.now*nsPerMs + s.EndOff() }
+
+func (e *runEnv) inWindow(spans []*Span) []*Span {
+	var out []*Span
+	for _, s := range spans {
+		if e.inWin(s) {
+			out = append(out, s)
+		}
+	}
+	return out
+}
+
+const dayMs = int64(86400000)
+
+func readEventTimes(c *sut.Client, cs *Case, env *runEnv, o *rec) error {
+	var sr sut.SearchResult
+	if err := callOp(c, &sut.Req{Op: "search", Index: "traces", Text: "*", Start: uint64(env.now - 400*dayMs), End: uint64(env.now + 2*dayMs),
+		Size: len(cs.Spans) + 10}, &sr, "match-all on index traces"); err != nil {
+		return err
+	}
+	if sr.Err != "" {
+		return fmt.Errorf("match-all on index traces failed: %s", sr.Err)
+	}
+	env.et = map[int]int64{}
+	for _, r := range sr.Records {
+		v, ok1 := r["vid"].Int()
+		ts, ok2 := r["timestamp"].Float()
+		if !ok1 || !ok2 {
+			continue
+		}
+		env.et[int(v)] = int64(ts)
+	}
+	arrival, start := true, true
+	for _, s := range cs.Spans {
+		t, ok := env.et[s.Vid]
+		if !ok {
+			return fmt.Errorf("span vid=%d (trace %s, span %s) was acknowledged by the OTLP ingest but is not in index traces (%d of %d spans found)",
+				s.Vid, s.Trace, s.ID, len(env.et), len(cs.Spans))
+		}
+		if t < env.now || t > env.now2 {
+			arrival = false
+		}
+		if t != env.startNs(s)/nsPerMs {
+			start = false
+		}
+	}
+	switch {
+	case arrival:
+		o.Class("event_time_is_arrival")
+	case start:
+		o.Class("event_time_is_span_start")
+	default:
+		o.Class("event_time_other")
+	}
+	return nil
+}
+
 // ---- views ----------------------------------------------------------------------------------------
 
 type listedTrace struct {
@@ -247,11 +343,18 @@ func decodeJSON(b []byte, out interface{}) error {
 	return d.Decode(out)
 }
 
-func checkTraceList(c *sut.Client, cs *Case, f *forestInfo, now int64, o *pt.Obs) error {
-	se := fmt.Sprint(now - cs.WindowBackMs)
-	ee := fmt.Sprint(now + cs.WindowFwdMs)
-	pages := (len(f.Order)+49)/50 + 1 // one page beyond the last: safety only
-	lastFull := (len(f.Order) + 49) / 50
+func checkTraceList(c *sut.Client, cs *Case, f *forestInfo, env *runEnv, o *rec) error {
+	se := fmt.Sprint(env.ws)
+	ee := fmt.Sprint(env.we)
+	// the pages are cut from the traces that have at least one span in the window
+	nList := 0
+	for _, id := range f.Order {
+		if len(env.inWindow(f.Traces[id].Spans)) > 0 {
+			nList++
+		}
+	}
+	lastFull := (nList + 49) / 50
+	pages := (len(f.Order)+49)/50 + 1 // beyond the last page: safety only
 	seen := map[string]*listedTrace{}
 	for p := 1; p <= pages; p++ {
 		what := fmt.Sprintf("trace search page %d", p)
@@ -298,19 +401,23 @@ func checkTraceList(c *sut.Client, cs *Case, f *forestInfo, now int64, o *pt.Obs
 	if !f.AllWF {
 		return nil // malformed forest: error or partial view is acceptable
 	}
+	wsNs, weNs := env.ws*nsPerMs, env.we*nsPerMs
 	for _, id := range f.Order {
 		ti := f.Traces[id]
 		lt := seen[id]
-		switch rootMembership(ti.Root, cs) {
-		case +1:
+		root := ti.Root
+		rs, re := env.startNs(root), env.endNs(root)
+		desc := fmt.Sprintf("root %s %q/%q, %d spans, root start=now%+dns end=now%+dns event time=now%+dms, window=[now-%dms,now+%dms]",
+			root.ID, cs.Services[root.Svc], root.Name, len(ti.Spans), root.StartOff, root.EndOff(), env.et[root.Vid]-env.now, cs.WindowBackMs, cs.WindowFwdMs)
+		switch {
+		case env.inWin(root) && rs >= wsNs && re <= weNs:
 			if lt == nil {
-				return fmt.Errorf("trace %s (root %s %q/%q, %d spans, root offsets start=%dns end=%dns, window=[-%dms,+%dms]) is rooted in the window but missing from the trace list (%d pages read, %d traces listed)",
-					id, ti.Root.ID, cs.Services[ti.Root.Svc], ti.Root.Name, len(ti.Spans), ti.Root.StartOff, ti.Root.EndOff(), cs.WindowBackMs, cs.WindowFwdMs, lastFull, len(seen))
+				return fmt.Errorf("trace %s (%s) is rooted in the window but missing from the trace list (%d pages read, %d traces listed)",
+					id, desc, lastFull, len(seen))
 			}
-		case -1:
+		case !env.inWin(root) || re < wsNs || rs > weNs:
 			if lt != nil {
-				return fmt.Errorf("trace %s is listed although its root lies entirely outside the window (root offsets start=%dns end=%dns, window=[-%dms,+%dms])",
-					id, ti.Root.StartOff, ti.Root.EndOff(), cs.WindowBackMs, cs.WindowFwdMs)
+				return fmt.Errorf("trace %s (%s) is listed although its root lies outside the window", id, desc)
 			}
 		default:
 			o.Class("root_straddles_window_edge")
@@ -318,9 +425,15 @@ func checkTraceList(c *sut.Client, cs *Case, f *forestInfo, now int64, o *pt.Obs
 		if lt == nil {
 			continue
 		}
-		wantSvc, wantOp := cs.Services[ti.Root.Svc], ti.Root.Name
+		wantSvc, wantOp := cs.Services[root.Svc], root.Name
 		if lt.Service != wantSvc || lt.Operation != wantOp {
 			return fmt.Errorf("trace %s listed with root service/operation %q/%q, sent %q/%q", id, lt.Service, lt.Operation, wantSvc, wantOp)
+		}
+		if len(env.inWindow(ti.Spans)) != len(ti.Spans) {
+			// some spans of the trace have an event time outside the window: whether they count is
+			// not fixed by the statement (the upper bounds above still hold)
+			o.Class("trace_partly_outside_window")
+			continue
 		}
 		if lt.SpanCount != len(ti.Spans) || lt.ErrCount != ti.ErrCount {
 			return fmt.Errorf("trace %s listed with span_count=%d span_errors_count=%d, sent %d spans of which %d have status ERROR",
@@ -352,9 +465,12 @@ func tagVid(n *ganttNode) (int, bool) {
 	return 0, false
 }
 
-func checkGantt(c *sut.Client, cs *Case, f *forestInfo, ti *traceInfo, o *pt.Obs) error {
+func checkGantt(c *sut.Client, cs *Case, f *forestInfo, env *runEnv, ti *traceInfo, o *rec) error {
 	what := "span tree of trace " + ti.ID
-	hr, err := httpOp(c, "gantt", map[string]interface{}{"searchText": "trace_id=" + ti.ID, "startEpoch": "now-365d", "endEpoch": "now"}, what)
+	// the UI asks for now-365d..now; an explicit range of the same kind that also covers spans
+	// stamped slightly in the future keeps the request independent of the event-time rule
+	hr, err := httpOp(c, "gantt", map[string]interface{}{"searchText": "trace_id=" + ti.ID, "startEpoch": fmt.Sprint(env.now - 365*dayMs),
+		"endEpoch": fmt.Sprint(env.now + dayMs)}, what)
 	if err != nil {
 		return err
 	}
@@ -508,16 +624,17 @@ func dropDotted(m map[string]map[string]int) map[string]map[string]int {
 	return out
 }
 
-func checkDepGraph(c *sut.Client, cs *Case, f *forestInfo, now int64, o *pt.Obs) error {
-	se := fmt.Sprint(now - cs.WindowBackMs)
-	ee := fmt.Sprint(now + cs.WindowFwdMs)
-	want := depMatrix(cs.Services, cs.Spans)
+func checkDepGraph(c *sut.Client, cs *Case, f *forestInfo, env *runEnv, o *rec) error {
+	se := fmt.Sprint(env.ws)
+	ee := fmt.Sprint(env.we)
+	inWin := env.inWindow(cs.Spans)
+	want := depMatrix(cs.Services, inWin)
 	hr, err := httpOp(c, "genDepGraph", map[string]interface{}{"startEpoch": se, "endEpoch": ee}, "generated dependency graph")
 	if err != nil {
 		return err
 	}
 	strict := f.ForestWF
-	if strict && len(cs.Spans) > pageLimit && pt.KnownFindingOpen(knownPaging) {
+	if strict && len(inWin) > pageLimit && pt.KnownFindingOpen(knownPaging) {
 		o.Known(knownPaging)
 		strict = false
 	}
@@ -530,20 +647,20 @@ func checkDepGraph(c *sut.Client, cs *Case, f *forestInfo, now int64, o *pt.Obs)
 			return fmt.Errorf("generated dependency graph: undecodable answer (%v): %s", err, clip(hr.Body))
 		}
 		if !matrixEqual(got, want) {
-			return fmt.Errorf("generated dependency graph over %d spans: got %s, the cross-service parent→child pairs sent are %s",
-				len(cs.Spans), matrixString(got), matrixString(want))
+			return fmt.Errorf("generated dependency graph over %d spans in the window: got %s, the cross-service parent→child pairs sent are %s",
+				len(inWin), matrixString(got), matrixString(want))
 		}
 	}
 	// the stored path: what the hourly job computes and stores, then the aggregated view
 	var stored map[string]map[string]int
 	for r := 0; r < cs.DepRounds; r++ {
-		if err := callOp(c, &sut.Req{Op: "c12storedep", Start: uint64(now - cs.WindowBackMs), End: uint64(now + cs.WindowFwdMs)}, &stored,
+		if err := callOp(c, &sut.Req{Op: "c12storedep", Start: uint64(env.ws), End: uint64(env.we)}, &stored,
 			"dependency graph job"); err != nil {
 			return err
 		}
 		if strict && !matrixEqual(stored, want) {
-			return fmt.Errorf("dependency graph job over %d spans computed %s, the cross-service parent→child pairs sent are %s",
-				len(cs.Spans), matrixString(stored), matrixString(want))
+			return fmt.Errorf("dependency graph job over %d spans in the window computed %s, the cross-service parent→child pairs sent are %s",
+				len(inWin), matrixString(stored), matrixString(want))
 		}
 	}
 	if err := callOp(c, &sut.Req{Op: "flush"}, nil, "flush"); err != nil {
@@ -619,29 +736,56 @@ func closeTo(a, b float64) bool {
 	return d <= 1e-9*math.Max(math.Abs(a), math.Abs(b))
 }
 
-func checkRED(c *sut.Client, cs *Case, f *forestInfo, now int64, o *pt.Obs) error {
+func checkRED(c *sut.Client, cs *Case, f *forestInfo, env *runEnv, o *rec) error {
+	var t0, t1 int64
+	if err := callOp(c, &sut.Req{Op: "c12now"}, &t0, "clock"); err != nil {
+		return err
+	}
 	if err := callOp(c, &sut.Req{Op: "c12red"}, nil, "RED metrics job"); err != nil {
+		return err
+	}
+	if err := callOp(c, &sut.Req{Op: "c12now"}, &t1, "clock"); err != nil {
 		return err
 	}
 	if err := callOp(c, &sut.Req{Op: "flush"}, nil, "flush"); err != nil {
 		return err
 	}
 	var sr sut.SearchResult
-	if err := callOp(c, &sut.Req{Op: "search", Index: "red-traces", Text: "*", Start: uint64(now - 3600000), End: uint64(now + 3600000), Size: 1000},
+	if err := callOp(c, &sut.Req{Op: "search", Index: "red-traces", Text: "*", Start: uint64(env.now - 3600000), End: uint64(t1 + 3600000), Size: 1000},
 		&sr, "search on red-traces"); err != nil {
 		return err
 	}
 	if !f.ForestWF {
 		return nil
 	}
-	if len(cs.Spans) > pageLimit && pt.KnownFindingOpen(knownPaging) {
+	// The job reads [n−5 min, n] for some instant n in [t0, t1]. A span is certainly read if its
+	// event time lies in [t1−5 min, t0], certainly not if it lies before t0−5 min or after t1;
+	// anything else depends on when exactly the job looked: don't-care for the whole case.
+	const fiveMin, slack = int64(300000), int64(2)
+	var read []*Span
+	for _, s := range cs.Spans {
+		t := env.et[s.Vid]
+		switch {
+		case t >= t1-fiveMin+slack && t <= t0-slack:
+			read = append(read, s)
+		case t < t0-fiveMin-slack || t > t1+slack:
+		default:
+			o.Class("red_window_edge_ambiguous")
+			return nil
+		}
+	}
+	o.Count("red_spans_read", int64(len(read)))
+	if len(read) > 0 {
+		o.Class("red_nonempty")
+	}
+	if len(read) > pageLimit && pt.KnownFindingOpen(knownPaging) {
 		o.Known(knownPaging)
 		return nil
 	}
 	if sr.Err != "" {
 		return fmt.Errorf("search on red-traces failed: %s", sr.Err)
 	}
-	want := redMetrics(cs.Services, cs.Spans)
+	want := redMetrics(cs.Services, read)
 	got := map[string]sut.Record{}
 	for _, r := range sr.Records {
 		svc, ok := r["service"].Str()
@@ -795,13 +939,63 @@ func classify(cs *Case, f *forestInfo, o *pt.Obs) {
 	}
 }
 
+// withRetry runs one attempt at a case (fresh worker each time). A command timeout can be a hang
+// of the server or a stall of the machine; the case is therefore attempted once more:
+//   - the second attempt decides if it finishes (held or violated);
+//   - a view that times out in both attempts while a fresh worker still starts promptly is a hang;
+//   - everything else is inconclusive.
+func withRetry(attempt func(r *rec) error, o *pt.Obs) error {
+	r := &rec{}
+	err := attempt(r)
+	var te *timeoutErr
+	var inc *pt.Inconclusive
+	if errors.As(err, &inc) { // e.g. the worker did not start in time: environment, try once more
+		te = nil
+		err = &timeoutErr{view: false, msg: inc.Error()}
+	}
+	if errors.As(err, &te) {
+		first := te
+		r = &rec{}
+		r.Class("retried_after_timeout")
+		err = attempt(r)
+		if errors.As(err, &te) {
+			if first.view && te.view {
+				if d, perr := loadProbe(); perr == nil && d <= 3*time.Second {
+					err = &violation{"hang (reproduced in two fresh servers): " + te.msg}
+				} else {
+					err = pt.Inconclusivef("two timeouts, machine overloaded (fresh worker round trip %v, %v): %s", d, perr, firstLine(te.msg))
+				}
+			} else {
+				err = pt.Inconclusivef("two timeouts: %s / %s", firstLine(first.msg), firstLine(te.msg))
+			}
+		}
+	}
+	r.applyTo(o)
+	var v *violation
+	if errors.As(err, &v) {
+		return errors.New(v.msg)
+	}
+	return err
+}
+
+func firstLine(s string) string {
+	if i := strings.IndexByte(s, '\n'); i >= 0 {
+		return s[:i]
+	}
+	return s
+}
+
 func checkC12(cs *Case, o *pt.Obs) error {
 	if len(cs.Spans) == 0 {
 		return nil
 	}
 	f := analyse(cs)
 	classify(cs, f, o)
-	err := pt.WithWorker(sut.Options{Timeout: callTimeout}, func(c *sut.Client) error {
+	return withRetry(func(r *rec) error { return runC12(cs, f, r) }, o)
+}
+
+func runC12(cs *Case, f *forestInfo, o *rec) error {
+	return pt.WithWorker(sut.Options{Timeout: callTimeout}, func(c *sut.Client) error {
 		var now int64
 		if err := callOp(c, &sut.Req{Op: "c12now"}, &now, "clock"); err != nil {
 			return err
@@ -837,10 +1031,14 @@ func checkC12(cs *Case, o *pt.Obs) error {
 			return err
 		}
 		if now2-now > cs.WindowFwdMs-30000 {
-			return pt.Inconclusivef("ingestion took %d ms; arrival times too close to the window end", now2-now)
+			return &timeoutErr{view: false, msg: fmt.Sprintf("ingestion took %d ms; arrival times too close to the window end", now2-now)}
+		}
+		env := &runEnv{now: now, now2: now2, ws: now - cs.WindowBackMs, we: now + cs.WindowFwdMs}
+		if err := readEventTimes(c, cs, env, o); err != nil {
+			return err
 		}
 
-		if err := checkTraceList(c, cs, f, now, o); err != nil {
+		if err := checkTraceList(c, cs, f, env, o); err != nil {
 			return err
 		}
 		// span trees: the largest traces first, bounded
@@ -850,27 +1048,15 @@ func checkC12(cs *Case, o *pt.Obs) error {
 			ids = ids[:cs.GanttMax]
 		}
 		for _, id := range ids {
-			if err := checkGantt(c, cs, f, f.Traces[id], o); err != nil {
+			if err := checkGantt(c, cs, f, env, f.Traces[id], o); err != nil {
 				return err
 			}
 		}
-		if err := checkDepGraph(c, cs, f, now, o); err != nil {
+		if err := checkDepGraph(c, cs, f, env, o); err != nil {
 			return err
 		}
-		var now3 int64
-		if err := callOp(c, &sut.Req{Op: "c12now"}, &now3, "clock"); err != nil {
-			return err
-		}
-		if now3-now > 240000 {
-			return pt.Inconclusivef("case took %d ms; the RED job reads only the last five minutes", now3-now)
-		}
-		return checkRED(c, cs, f, now, o)
+		return checkRED(c, cs, f, env, o)
 	})
-	var v *violation
-	if errors.As(err, &v) {
-		return errors.New(v.msg)
-	}
-	return err
 }
 
 func TestC12(t *testing.T) { pt.RunProp(t, "C12", genCase, checkC12) }
